@@ -311,7 +311,7 @@ def export_roundtrip(binary, workdir, name, steps, cut, entry):
         if st["op"] in ("block", "blocks"):
             rest.append({"op": "state"})
     out = []
-    rx = run_replica(binary, workdir, name, steps[:cut] + [{"op": "export", "to": exp}] + rest, "plain")
+    rx = run_replica(binary, workdir, name, steps[:cut] + [{"op": "export", "to": exp}, {"op": "stores"}] + rest, "plain")
     ex = [r for r in rx if r["op"] == "export"]
     if not ex or not os.path.exists(exp) or not ex[0].get("state"):
         entry["export"] = "failed"
@@ -319,16 +319,23 @@ def export_roundtrip(binary, workdir, name, steps, cut, entry):
     before = ex[0]["state"]
     # the imported state is read first; then the one field known to be lost (the super-node cursor, see known_findings)
     # is put back by hand, so that the rest of the continuation is still compared
-    ry = run_replica(binary, workdir, name + "i", [{"op": "state"}, {"op": "setround", "n": before.get("round", -1)}] + rest, "plain",
+    ry = run_replica(binary, workdir, name + "i", [{"op": "state"}, {"op": "stores"}, {"op": "setround", "n": before.get("round", -1)}] + rest, "plain",
                      genesis=exp, initial=before["h"] + 1)
     sx = [r["state"] for r in rx if r["op"] == "state"]
     sy = [r["state"] for r in ry if r["op"] == "state"]
     res = {"height": before["h"], "import_diff": [], "continuation_diff": []}
     if sy:
         res["import_diff"] = state_diff(before, dict(sy[0], h=before["h"]))
+    # the raw key/value contents of the six modules' stores, uninterpreted: whatever the projection does not know is here too
+    stx = [r["stores"] for r in rx if r["op"] == "stores"]
+    sty = [r["stores"] for r in ry if r["op"] == "stores"]
+    if stx and sty:
+        raw = sorted("store:" + k for k in set(stx[0]) | set(sty[0]) if stx[0].get(k) != sty[0].get(k))
+        res["store_keys_compared"] = sum(len(v) for v in stx[0].values())
+        res["import_diff"] += raw
     # the continuation is compared when the import was exact up to that cursor: once any other field is lost, what follows
     # differs in unbounded ways and says nothing new
-    if set(res["import_diff"]) <= {"round"}:
+    if set(res["import_diff"]) <= {"round", "store:node:NodeRound"}:
         for i, (a, b) in enumerate(zip(sx, sy[1:])):
             dd = state_diff(a, b)
             if dd:
@@ -453,18 +460,24 @@ def replicas_run(binary, workdir, tier, seed):
         exp = os.path.join(workdir, name + ".genesis.json")
         steps = script_for(stream, [], states_from=gap, export_at=gap, export_to=exp)
         cut = next(i for i, s in enumerate(steps) if s["op"] == "export")
-        rx = run_replica(binary, workdir, name, steps[: cut + 1], "plain")
+        rx = run_replica(binary, workdir, name, steps[: cut + 1] + [{"op": "stores"}], "plain")
         ex = [r for r in rx if r["op"] == "export"]
         if not ex or not os.path.exists(exp):
             violations.append({"formula": "C18_ExportSucceeds", "detail": "export failed at gap %d: %s" % (gap, [r.get("note") for r in rx][-1:]), "script": name})
             continue
         before = ex[0]["state"]
         hexp = before["h"]
-        ry = run_replica(binary, workdir, name + "i", [{"op": "state"}] + steps[cut + 1:], "plain", genesis=exp, initial=hexp + 1)
+        ry = run_replica(binary, workdir, name + "i", [{"op": "state"}, {"op": "stores"}] + steps[cut + 1:], "plain", genesis=exp, initial=hexp + 1)
         sts = [r for r in ry if r["op"] == "state"]
         entry = {"gap": gap, "height": hexp, "import_diff": [], "continuation_diff": []}
         if sts:
             entry["import_diff"] = state_diff(before, dict(sts[0]["state"], h=before["h"]))
+        stx = [r["stores"] for r in rx if r["op"] == "stores"]
+        sty = [r["stores"] for r in ry if r["op"] == "stores"]
+        if stx and sty:
+            # raw, uninterpreted store contents of the six modules (what the projection does not know is here too)
+            entry["import_diff"] += sorted("store:" + k for k in set(stx[0]) | set(sty[0]) if stx[0].get(k) != sty[0].get(k))
+            entry["store_keys_compared"] = sum(len(v) for v in stx[0].values())
         # continuation: states after each later block must equal A's at the same height
         hh = None
         for r in ry:
